@@ -84,19 +84,23 @@ def Sol.v (s : Sol K) (n : String) : Option K := (s.V.find? (·.1 = n)).map (·.
 def Sol.i (s : Sol K) (n : String) : Option K := (s.I.find? (·.1 = n)).map (·.2)
 
 /-- the first retained quantity on which the two solutions differ (`none` = they agree).
-    A quantity missing from a solution is not compared (wires and open circuits have no current). -/
+    A quantity that the solution of the ORIGINAL reports and the solution of the rewritten netlist does not is a
+    difference too (`missing:…`): an empty or partial second solution never counts as agreement.  A quantity absent
+    from the original solution is not compared (wires and open circuits have no current). -/
 def firstDifference (mode : Mode) (ren : String → String) (orig new : Net K) (so sn : Sol K) : Option String :=
   let nodes := retainedNodes mode ren orig new
   let badN := nodes.find? (fun n => match so.v n, sn.v (ren n) with
     | some a, some b => a ≠ b
+    | some _, none => true
     | _, _ => false)
   match badN with
-  | some n => some ("V:" ++ n)
+  | some n => some ((if (sn.v (ren n)).isNone then "missing:V:" else "V:") ++ n)
   | none =>
     let badC := (untouched mode ren orig new).find? (fun e => match so.i e.name, sn.i e.name with
       | some a, some b => a ≠ b
+      | some _, none => true
       | _, _ => false)
-    badC.map (fun e => "I:" ++ e.name)
+    badC.map (fun e => (if (sn.i e.name).isNone then "missing:I:" else "I:") ++ e.name)
 
 /-- terminal pairs of a component across which a voltage is defined: (first, second) and, for
     four-terminal controlled sources, the controlling pair -/
